@@ -405,6 +405,43 @@ def replay_cases(run: Run, cases: list, stats: dict, base: str, pool, cli_n: int
                               f"`{out['cmd']}`: {prob['what']}", {"cmd": out["cmd"], "variant": out["variant"]})
 
 
+def vacuity(cases: list):
+    """Every dimension of the case space and both outcomes of every clause must occur in what TLC enumerated."""
+    import griffe  # noqa: PLC0415
+
+    def seen(f):
+        return {json.dumps(f(c), sort_keys=True) for c in cases}
+
+    problems = []
+    if seen(lambda c: c["part"]) != {'"shape"', '"expr"', '"doc"'}:
+        problems.append("parts")
+    if seen(lambda c: c["origin"]) != {json.dumps(o) for o in ("static", "inspect_src", "inspect_nosrc", "builtin", "namespace")}:
+        problems.append("origins")
+    for flag in ("encode", "decode", "names", "render", "full"):
+        if {c["clean"][flag] for c in cases} != {True, False}:
+            problems.append(f"clean.{flag} takes one value only")
+    steps = {s for c in cases for s in c["spine"]}
+    if steps != set(P.STEP_TMPL):
+        problems.append(f"steps never used / unknown: {sorted(steps ^ set(P.STEP_TMPL))}")
+    if {c["leaf"] for c in cases if c["part"] == "expr"} != set(P.LEAF_SRC):
+        problems.append("leaves")
+    if len({c["slot"] for c in cases if c["part"] == "expr"}) != 8:
+        problems.append("slots")
+    if {c["section"] for c in cases if c["part"] == "doc"} != set(P.GOOGLE):
+        problems.append("docstring sections")
+    if {c["dec"]["exc"] for c in cases if not c["dec"]["ok"]} - {"encode"} != {"KeyError", "TypeError"}:
+        problems.append("decode failures")
+    if not any(c["dec"]["ok"] and not c["same"]["full"] for c in cases) or not any(c["dec"]["ok"] and not c["render"] for c in cases):
+        problems.append("full-form / render differences")
+    if problems:
+        die(f"C08: vacuous enumeration: {problems}")
+    # the expression classes the templates do not build (model table vs the real module)
+    built = {"Expr" + s.split(".")[0].split("/")[0] for s in P.STEP_TMPL} | {"Expr" + x.split(".")[0] for s in P.STEP_TMPL for x in s.split("/")[1:]} \
+        | {"ExprName", "ExprAttribute", "ExprParameter"}
+    real = {n for n in dir(griffe) if n.startswith("Expr") and isinstance(getattr(griffe, n), type) and n != "Expr"}
+    return sorted(real - built), sorted(built - real)
+
+
 def main(tier: str, replay: str | None = None):
     ensure_repo()
     run = Run("C08", tier)
@@ -458,35 +495,39 @@ def main(tier: str, replay: str | None = None):
         run.finish()
 
     all_jobs = jobs(tier)
-    # TLC: several runs at once
-    results = []
     par = 4 if tier == "quick" else 3
     wk = max(2, (ncpu - 2) // par)
-    with cf.ThreadPoolExecutor(max_workers=par) as tp:
-        for job, res in tp.map(lambda j: run_tlc(j, wk), all_jobs):
-            results.append((job, res))
-    emitted = []
-    for job, res in results:
-        label, _m, _c, _k, emits, expect_violation = job
-        run.add_tlc(res)
-        if expect_violation:
-            tlc.must(res, allow_violations=True)
-            if not res.violated:
-                die(f"C08: the defect domain {label} violates no clause any more: Serde.tla no longer exhibits the recorded defects")
-            run.extra.setdefault("defect_domain_violates", {})[label] = res.violated
-        else:
-            tlc.must(res)
-        if emits:
-            if not res.cases:
-                die(f"C08: {label} emitted no case")
-            emitted.append((label, res.cases))
-    run.extra["tlc_wall_s"] = round(time.time() - t0, 1)
-    run.exhaustive = True
     counts = {}
+    slim = []   # what the vacuity check needs of every descriptor (the case lists themselves are dropped after their replay)
     with scratch("c08-") as base, cf.ProcessPoolExecutor(max_workers=nproc, mp_context=ctx) as pool:
-        for label, cases in emitted:
-            counts[label] = len(cases)
-            replay_cases(run, cases, stats, base, pool, (6 if tier == "quick" else 25) if label.startswith(("shape", "all-parts")) else 0)
+        list(pool.map(int, range(nproc)))        # fork the workers now, before the TLC threads exist
+        with cf.ThreadPoolExecutor(max_workers=par) as tp:
+            # TLC: several runs at once; each result is replayed as soon as it is complete (in job order)
+            for job, res in tp.map(lambda j: run_tlc(j, wk), all_jobs):
+                label, _m, _c, _k, emits, expect_violation = job
+                run.add_tlc(res)
+                if expect_violation:
+                    tlc.must(res, allow_violations=True)
+                    if not res.violated:
+                        die(f"C08: the defect domain {label} violates no clause any more: Serde.tla no longer exhibits the recorded defects")
+                    run.extra.setdefault("defect_domain_violates", {})[label] = res.violated
+                else:
+                    tlc.must(res)
+                if emits:
+                    if not res.cases:
+                        die(f"C08: {label} emitted no case")
+                    counts[label] = len(res.cases)
+                    slim += [{k: c[k] for k in ("part", "origin", "clean", "spine", "leaf", "slot", "section", "dec", "same", "render")} for c in res.cases]
+                    replay_cases(run, res.cases, stats, base, pool, (6 if tier == "quick" else 25) if label.startswith(("shape", "all-parts")) else 0)
+                res.cases = []
+    run.extra["tlc_and_replay_wall_s"] = round(time.time() - t0, 1)
+    run.exhaustive = True
+    unmodelled, unknown = vacuity(slim)
+    if unknown:
+        die(f"C08: Serde.tla builds expression classes the working tree does not have: {unknown}")
+    if unmodelled != ["ExprConstant", "ExprExtSlice"]:
+        run.note(f"expression classes without a template in Serde.tla: {unmodelled} (expected: ExprConstant, ExprExtSlice - never instantiated on 3.12)")
+    run.extra["expression_classes_not_modelled"] = unmodelled
     # vacuity: every clause must have been exercised, every origin and kind replayed
     need = {"dump-ok", "cli-packages"}
     missing = [k for k in need if not stats[k]]
